@@ -35,11 +35,14 @@ def _exc_classes(lib):
     return {"ValueError": ValueError, "KeyError": KeyError, "BodyError": BodyError,
             "KeyboardInterrupt": KeyboardInterrupt, "SystemExit": SystemExit,
             "BodyBase": BodyBase, "GeneratorExit": GeneratorExit,
+            "StopIteration": StopIteration, "RuntimeError": RuntimeError,
             "CancelMutation": lib.simfile.CancelMutation}
 
 
+# StopIteration / RuntimeError / GeneratorExit are the classes a generator-based context
+# manager treats specially (PEP 479); they are Exception / BaseException subclasses like any other
 EXC_NAMES = ["ValueError", "KeyError", "BodyError", "KeyboardInterrupt", "SystemExit", "BodyBase",
-             "CancelMutation"]
+             "StopIteration", "RuntimeError", "GeneratorExit", "CancelMutation"]
 ERRNO_NAMES = ["EIO", "ENOSPC", "EACCES"]
 
 
@@ -898,6 +901,10 @@ def check_c06(sc, res):
                 return
             if o.escaped is not o.raised_obj:
                 res.violate(P, "body-exception-replaced", escaped=repr(o.escaped), **extra)
+                return
+            if o.escaped.args != ("body-raise",) or o.escaped.__cause__ is not None:
+                res.violate(P, "body-exception-altered", args=repr(o.escaped.args),
+                            cause=repr(o.escaped.__cause__), **extra)
                 return
         res.note("body", shape, pos == len(sc["ops"]), exc)
         res.log("body", pos, exc, o.disk.log_digest())
